@@ -1501,7 +1501,7 @@ def m_cmp_max(I, st, fr, t, args, name):
 
 DEFAULT_MODELS = {
     r'as std::ops::Deref>::deref$|as std::ops::DerefMut>::deref_mut$': m_deref,
-    r'as std::convert::AsRef<.*>>::as_ref$|as std::borrow::Borrow<.*>>::borrow$|as std::convert::AsMut<.*>>::as_mut$': m_passthrough,
+    r'as std::convert::AsRef<.*>>::as_ref$|as std::borrow::Borrow<.*>>::borrow$|as std::convert::AsMut<.*>>::as_mut$|^std::convert::AsRef::as_ref$|^std::borrow::Borrow::borrow$': m_passthrough,
     r'^std::option::Option::<T>::(as_ref|as_mut|as_deref|as_deref_mut|copied|cloned)$|^std::result::Result::<T, E>::(as_ref|as_mut)$': m_passthrough,
     r'^std::option::Option::<&(mut )?T>::(copied|cloned)$': m_passthrough,
     r'as std::clone::Clone>::clone$': m_clone,
@@ -1515,7 +1515,7 @@ DEFAULT_MODELS = {
     r'^std::option::Option::<T>::(unwrap|expect)$|^std::result::Result::<T, E>::(unwrap|expect)$': m_unwrap_like,
     r'^std::option::Option::<T>::unwrap_or$|^std::result::Result::<T, E>::unwrap_or$': m_unwrap_or,
     r'as std::ops::Fn(Once|Mut)?<.*>>::call(_once|_mut)?$': m_call_fn,
-    r'as std::cmp::PartialEq(<.*>)?>::(eq|ne)$|^std::cmp::PartialEq::(eq|ne)$': m_matches_eq,
+    r'as std::cmp::PartialEq(<.*>)?>::(eq|ne)$|^std::cmp::PartialEq::(eq|ne)$|<impl std::cmp::PartialEq(<.*>)? for .*>::(eq|ne)$': m_matches_eq,
     r'as std::cmp::PartialOrd(<.*>)?>::(lt|le|gt|ge)$|^std::cmp::PartialOrd::(lt|le|gt|ge)$': m_partial_ord,
 }
 DEFAULT_MODELS[r'^std::option::Option::<T>::is_some$'] = m_is_variant('Some')
